@@ -146,6 +146,13 @@ func (s *EncryptionSession) initFinalize(reverse bool, keyContext string) error 
 		return errors.New("invalid key context")
 	}
 
+	// Check that both halves of the key exchange are there.
+	// The own half is missing if the exchange was started on another
+	// encryption session, eg. when the session lost its keys in between.
+	if s.kxRouterPrivate == nil || s.kxRemotePublic == nil {
+		return errors.New("key exchange not started")
+	}
+
 	// Compute shared key.
 	sharedKey, err := s.kxRouterPrivate.ECDH(s.kxRemotePublic)
 	if err != nil {
